@@ -101,6 +101,10 @@ impl<'a> LTr<'a> {
                     if n == "None" {
                         return Ok(("none".into(), LTy::Unknown));
                     }
+                    if n == "DateTimeRangeError" {
+                        // a unit structure of the vocabulary
+                        return Ok(("Rs.DateTimeRangeError.mk".into(), LTy::Ext("Rs.DateTimeRangeError".into())));
+                    }
                 }
                 if segs.len() >= 2 && segs[segs.len() - 2] == "path" && segs[segs.len() - 1] == "MAIN_SEPARATOR" {
                     // `std::path::MAIN_SEPARATOR` (Unix host)
@@ -142,8 +146,21 @@ impl<'a> LTr<'a> {
                 _ => Err("unary operator".into()),
             },
             Expr::Cast(c) => {
-                let (v, _) = self.expr(&c.expr)?;
                 let t = lty(&c.ty, &[], None, self.reg, self.lreg);
+                if t == LTy::Ext("Rs.AesDyn.Cipher".into()) {
+                    // `Box::new(x) as Box<dyn AesCipher>`: the implementor's value as a member of the trait object type
+                    return match &*c.expr {
+                        Expr::Call(b) if b.args.len() == 1 && matches!(&*b.func, Expr::Path(p) if path_segs(&p.path) == ["Box", "new"]) => {
+                            let (v, vt) = self.expr(&b.args[0])?;
+                            if !matches!(&vt, LTy::Adt(n, _) if n == "AesCtrZipKeyStream") {
+                                return Err("boxed value that is not a key stream".into());
+                            }
+                            Ok((format!("(Rs.AesBox.box {v})"), t))
+                        }
+                        _ => Err("cast to a trait object of something other than `Box::new(..)`".into()),
+                    };
+                }
+                let (v, _) = self.expr(&c.expr)?;
                 match &t {
                     LTy::Int(n) => Ok((format!("(Rs.as' {n} {v})"), t.clone())),
                     _ => Err("cast target".into()),
@@ -205,6 +222,21 @@ impl<'a> LTr<'a> {
                         let e = self.exit("some none");
                         self.emit(format!("let some {v} := {res} | {e}"));
                     }
+                    return Ok((v, (**inner).clone()));
+                }
+                if let (LTy::Res(inner, e), LTy::Res(_, fe)) = (&ty, &self.sig.ret) {
+                    // `res?` in a function returning a `Result` with the SAME error type (`From` is the identity)
+                    if e != fe {
+                        return Err("`?` that converts the error type".into());
+                    }
+                    if self.closure {
+                        return Err("`?` inside a loop body".into());
+                    }
+                    let (v, x, err) = (self.fresh(), self.fresh(), self.fresh());
+                    let ex = self.exit(&format!("some (Except.error {err})"));
+                    self.emit(format!("let {v} ← match {res} with"));
+                    self.emit(format!("  | .ok {x} => pure {x}"));
+                    self.emit(format!("  | .error {err} => {ex}"));
                     return Ok((v, (**inner).clone()));
                 }
                 let inner = match ty {
@@ -303,6 +335,9 @@ impl<'a> LTr<'a> {
             self.self_ty.clone()
         } else if let Some(st) = self.lreg.structs.get(&n) {
             LTy::Adt(n.clone(), st.params.iter().map(|_| LTy::Unknown).collect())
+        } else if self.reg.structs.contains(&n) {
+            // a structure of the main translation
+            LTy::Adt(n.clone(), vec![])
         } else {
             return Err(format!("struct literal of {n}"));
         };
@@ -649,6 +684,9 @@ impl<'a> LTr<'a> {
             _ => return Err("call of a non-path".into()),
         };
         let args: Vec<&Expr> = c.args.iter().collect();
+        if let Some(r) = self.kind_calls(c, &segs, &args)? {
+            return Ok(r);
+        }
         let last = segs.last().cloned().unwrap_or_default();
         if segs.len() == 1 {
             if let Some((lean, ret, partial)) = ext_free(&last) {
@@ -783,6 +821,16 @@ impl<'a> LTr<'a> {
                     if segs[0] == "Err" {
                         let (v, _) = self.expr(&c.args[0])?;
                         return Ok(format!("Rs.IoRes.err {v}"));
+                    }
+                }
+                if segs.len() == 1 && c.args.len() == 1 && self.is_res() {
+                    if segs[0] == "Ok" {
+                        let (v, _) = self.expr(&c.args[0])?;
+                        return Ok(format!("(Except.ok {v})"));
+                    }
+                    if segs[0] == "Err" {
+                        let (v, _) = self.expr(&c.args[0])?;
+                        return Ok(format!("(Except.error {v})"));
                     }
                 }
             }
